@@ -4,6 +4,7 @@ go 1.12
 
 require (
 	github.com/dappledger/AnnChain v0.0.0
+	github.com/hashicorp/raft v1.1.1
 	github.com/spf13/viper v0.0.0-20171207042631-1a0c4a370c3e
 	go.uber.org/zap v0.0.0-20170802171341-e68420e36ce8
 	golang.org/x/crypto v0.0.0-20190426145343-a29dc8fdc734
